@@ -95,7 +95,7 @@ namespace micm
       upper_matrix_ = other.upper_matrix_;
       state_size_ = other.state_size_;
       number_of_grid_cells_ = other.number_of_grid_cells_;
-      temporary_variables_ = std::make_unique<TemporaryVariables>(*other.temporary_variables_);
+      temporary_variables_ = other.temporary_variables_ ? other.temporary_variables_->Clone() : nullptr;
       relative_tolerance_ = other.relative_tolerance_;
       absolute_tolerance_ = other.absolute_tolerance_;
     }
@@ -120,7 +120,7 @@ namespace micm
         upper_matrix_ = other.upper_matrix_;
         state_size_ = other.state_size_;
         number_of_grid_cells_ = other.number_of_grid_cells_;
-        temporary_variables_ = std::make_unique<TemporaryVariables>(*other.temporary_variables_);
+        temporary_variables_ = other.temporary_variables_ ? other.temporary_variables_->Clone() : nullptr;
         relative_tolerance_ = other.relative_tolerance_;
         absolute_tolerance_ = other.absolute_tolerance_;
       }
